@@ -371,9 +371,23 @@ type Exchange struct {
 	Fault  string `json:"fault,omitempty"`
 	// Lost is set when the connection was broken instead of executing the command.
 	Lost bool `json:"lost,omitempty"`
+	// Stale is set when the command was executed by a generation that no longer listens: it did
+	// not change the process that serves the traffic.
+	Stale bool `json:"stale,omitempty"`
 }
 
-// Fake is the simulated process: state + fault script + log of what was received.
+// Proc is one generation of the HAProxy worker process: the state it loaded and changed at run
+// time, and its pending certificate transactions. A reload starts the next generation, which
+// loads the files and is the one new connections on the admin socket reach; the connections the
+// former generation had accepted stay with it (soft stop) and keep acting on ITS state.
+type Proc struct {
+	Gen     int
+	St      *State
+	pending map[string]string // transactions of `set ssl cert`
+}
+
+// Fake is the simulated HAProxy: the listening generation (St is its state), the former ones
+// still referenced by their connections, the fault script and the log of what was received.
 type Fake struct {
 	mu      sync.Mutex
 	CfgDir  string
@@ -384,15 +398,22 @@ type Fake struct {
 	Reloads int
 	// ReloadFails makes the next reloads fail (the old worker keeps running).
 	ReloadFails int
-	pending     map[string]string // transactions of `set ssl cert`
+	cur         *Proc // the listening generation; cur.St == St
 	LoadErr     error
+	// OldExits: a reloaded process exits at once instead of serving its established connections
+	// until they end (soft stop): its connections are closed by the reload
+	OldExits bool
+	// onReload is called (outside the lock) with the generation that stopped listening
+	onReload func(oldGen int)
 	// lastReloadFailed: the last reload left the old worker running
 	lastReloadFailed bool
 }
 
 // New creates a fake that loads cfgdir on reload.
 func New(cfgdir string) *Fake {
-	return &Fake{CfgDir: cfgdir, St: NewState(), count: map[string]int{}, pending: map[string]string{}}
+	f := &Fake{CfgDir: cfgdir, St: NewState(), count: map[string]int{}}
+	f.cur = &Proc{Gen: 0, St: f.St, pending: map[string]string{}}
+	return f
 }
 
 // Begin starts a new step: clears the log, the per-target counters and installs the fault script.
@@ -407,13 +428,28 @@ func (f *Fake) Begin(faults []Fault) {
 
 // Reload loads the files as a new worker would.
 func (f *Fake) Reload() error {
+	old, err := f.reload()
+	if err == nil && f.onReload != nil {
+		f.onReload(old)
+	}
+	return err
+}
+
+// Current returns the listening generation.
+func (f *Fake) Current() *Proc {
+	f.mu.Lock()
+	defer f.mu.Unlock()
+	return f.cur
+}
+
+func (f *Fake) reload() (int, error) {
 	f.mu.Lock()
 	defer f.mu.Unlock()
 	f.Reloads++
 	if f.ReloadFails > 0 {
 		f.ReloadFails--
 		f.lastReloadFailed = true
-		return fmt.Errorf("scripted reload failure")
+		return f.cur.Gen, fmt.Errorf("scripted reload failure")
 	}
 	st, err := LoadDir(f.CfgDir)
 	if err == nil {
@@ -427,12 +463,13 @@ func (f *Fake) Reload() error {
 	if err != nil {
 		f.LoadErr = err
 		f.lastReloadFailed = true
-		return err
+		return f.cur.Gen, err
 	}
 	f.lastReloadFailed = false
+	old := f.cur.Gen
+	f.cur = &Proc{Gen: old + 1, St: st, pending: map[string]string{}}
 	f.St = st
-	f.pending = map[string]string{}
-	return nil
+	return old, nil
 }
 
 // Snapshot returns what was received since Begin and the number of reloads.
@@ -487,9 +524,16 @@ func (f *Fake) Lose(cmd string) {
 // Exec executes one runtime command and returns HAProxy's answer (without the
 // trailing line break). Scripted "text"/"noise" faults are applied here; "ioerr"
 // must be handled by the transport (NextFault / Lose).
-func (f *Fake) Exec(cmd string) string {
+func (f *Fake) Exec(cmd string) string { return f.ExecOn(nil, cmd) }
+
+// ExecOn executes the command on the generation that accepted the connection (nil = the
+// listening one).
+func (f *Fake) ExecOn(p *Proc, cmd string) string {
 	f.mu.Lock()
 	defer f.mu.Unlock()
+	if p == nil {
+		p = f.cur
+	}
 	t := TargetOf(cmd)
 	if t == "" {
 		return f.execOther(cmd)
@@ -501,11 +545,11 @@ func (f *Fake) Exec(cmd string) string {
 	case FaultRefuse:
 		ans = "Operation refused by the scripted fault."
 	case FaultNoise:
-		ans = strings.TrimSpace("[warning] scripted noise. " + f.apply(cmd))
+		ans = strings.TrimSpace("[warning] scripted noise. " + f.apply(p, cmd))
 	default:
-		ans = f.apply(cmd)
+		ans = f.apply(p, cmd)
 	}
-	f.Log = append(f.Log, Exchange{Target: t, Cmd: LogForm(cmd), Answer: ans, Fault: kind})
+	f.Log = append(f.Log, Exchange{Target: t, Cmd: LogForm(cmd), Answer: ans, Fault: kind, Stale: p != f.cur})
 	return ans
 }
 
@@ -563,19 +607,19 @@ func (f *Fake) execOther(cmd string) string {
 }
 
 // apply is HAProxy's `set server` / `set ssl cert` / `commit ssl cert`.
-func (f *Fake) apply(cmd string) string {
+func (f *Fake) apply(p *Proc, cmd string) string {
 	head := firstLine(cmd)
 	w := strings.Fields(head)
 	switch {
 	case w[0] == "set" && w[1] == "server":
-		return f.setServer(w)
+		return f.setServer(p, w)
 	case w[0] == "set" && w[1] == "ssl":
 		// set ssl cert <file> <<\n<payload>\n
 		if len(w) < 5 || w[4] != "<<" {
 			return "'set ssl cert' expects a filename and a certificate as a payload"
 		}
 		file := w[3]
-		if _, ok := f.St.Certs[file]; !ok {
+		if _, ok := p.St.Certs[file]; !ok {
 			return "Can't replace a certificate which is not referenced by the configuration!"
 		}
 		payload := ""
@@ -585,25 +629,25 @@ func (f *Fake) apply(cmd string) string {
 		if !strings.Contains(payload, "BEGIN") {
 			return "Can't load the payload"
 		}
-		f.pending[file] = CanonPEM(payload)
+		p.pending[file] = CanonPEM(payload)
 		return "Transaction created for certificate " + file + "!"
 	case w[0] == "commit" && w[1] == "ssl":
 		if len(w) < 4 {
 			return "'commit ssl cert' expects a filename"
 		}
 		file := w[3]
-		p, ok := f.pending[file]
+		pl, ok := p.pending[file]
 		if !ok {
 			return "No ongoing transaction! !"
 		}
-		delete(f.pending, file)
-		f.St.Certs[file] = p
+		delete(p.pending, file)
+		p.St.Certs[file] = pl
 		return "Committing " + file + ".\nSuccess!"
 	}
 	return "Unknown command."
 }
 
-func (f *Fake) setServer(w []string) string {
+func (f *Fake) setServer(p *Proc, w []string) string {
 	// set server <backend>/<server> (addr <ip> [port <p>] | state <s> | weight <w>)
 	if len(w) < 5 {
 		return "Require 'backend/server'."
@@ -612,7 +656,7 @@ func (f *Fake) setServer(w []string) string {
 	if i < 0 {
 		return "Require 'backend/server'."
 	}
-	be := f.St.Backends[w[2][:i]]
+	be := p.St.Backends[w[2][:i]]
 	if be == nil {
 		return "No such backend."
 	}
